@@ -6,7 +6,7 @@ def run(Ctx, CHECKS):
     os.makedirs(Ctx.BUILD, exist_ok=True)
     Ctx.ensure_generated()
     # one cargo invocation per workspace package keeps feature sets apart
-    pkgs = [("h_runtime", None), ("h_loom_arc", None), ("h_task", None), ("h_loom_task", None), ("expander", None), ("h_objects", None)]
+    pkgs = [("h_runtime", None), ("h_loom_arc", None), ("h_task", None), ("h_loom_task", None), ("expander", None), ("h_objects", None), ("h_life", None)]
     for pkg, feats in pkgs:
         cmd = ["cargo", "build", "--offline", "--release", "-p", pkg]
         if feats:
